@@ -56,6 +56,10 @@ impl Packer {
         if &fimg.file_system != super::FS_NAME {
             return Err(Box::new(Error::VolumeMismatch));
         }
+        if fimg.fs_type.len()==0 {
+            log::error!("file image has no file type");
+            return Err(Box::new(Error::FileTypeMismatch));
+        }
         Ok(())
     }
 }
@@ -70,6 +74,9 @@ impl Packing for Packer {
         }
     }
     fn get_load_address(&self,fimg: &FileImage) -> u16 {
+        if fimg.fs_type.len()==0 {
+            return 0;
+        }
         match FileType::from_u8(fimg.fs_type[0] & 0x7f) {
             Some(FileType::Integer) => 0,
             Some(FileType::Applesoft) => {
